@@ -345,7 +345,8 @@ class C06(Prop):
         self.conf = E.make_mudlib(ctx.rundir)
 
     def run_impl(self, ctx, cases):
-        return E.run_harness(self.exe, self.conf, cases, ctx.rundir)
+        # generous per-case limit: the heavy cases (65 537 clones, 70 000 holders) must not depend on machine speed
+        return E.run_harness(self.exe, self.conf, cases, ctx.rundir, timeout=3600, args=("--timeout", "900"))
 
     def canon(self, lines):
         out = []
